@@ -65,14 +65,18 @@ Steps == <<"mktmp", "refdir", "refmarkers", "qmarkers", "mapping", "patch", "cle
 \* The validation function either writes a new file (something had to change) or reports that nothing has to.  The
 \* runner names the valid file: the written one; else a COPY of the input at valid_h5ad_path when that destination was
 \* given; else the input itself.  Written files and copies carry the number of mapped genes in uns; a copy of a file
-\* that already carries the number keeps it.  Validating a valid file again changes nothing.
+\* that already carries the number keeps it.  Validating a valid file again changes nothing - unless it holds
+\* unmappable genes (see below).
 None3 == -1
 ValidKind(change, dest) == IF change THEN "written" ELSE IF dest = "valid_path" THEN "copy" ELSE "input"
-\* file state: [fixed : the content is already valid, rec : recorded number or None3]
-AfterValidate(f, dest, nmapped) ==
-    LET change == ~f.fixed IN
+\* file state: [fixed : the content is already valid, unk : it holds genes that cannot be mapped, rec : recorded number
+\* or None3].  Placeholder names of unmappable genes carry the time of the validation (to the second): validating such a
+\* file again in another second renames them and therefore writes a new file - `rewrite` is that (clock-dependent) choice;
+\* it is open only for files with unmappable genes.
+AfterValidate(f, dest, nmapped, rewrite) ==
+    LET change == ~f.fixed \/ (f.unk /\ rewrite) IN
     [kind |-> ValidKind(change, dest),
-     file |-> [fixed |-> TRUE,
+     file |-> [fixed |-> TRUE, unk |-> f.unk,
                rec |-> IF change THEN nmapped
                        ELSE IF f.rec # None3 THEN f.rec
                        ELSE IF dest = "valid_path" THEN nmapped ELSE None3]]
